@@ -307,12 +307,14 @@ class Repo(object):
     return self._method_index
 
   def resolve(self, fi, call):
+    # keyed by identity; the node is kept alive with its entry so that the id
+    # of a temporary (cloned) node can never be taken over by another node
     key = id(call)
-    got = self._resolve_cache.get(key)
-    if got is None:
-      got = self._resolve(fi, call)
-      self._resolve_cache[key] = got
-    return got
+    ent = self._resolve_cache.get(key)
+    if ent is None or ent[0] is not call:
+      ent = (call, self._resolve(fi, call))
+      self._resolve_cache[key] = ent
+    return ent[1]
 
   def _resolve(self, fi, call):
     """Resolve a Call node inside function `fi` to a list of fq names.
